@@ -295,7 +295,7 @@ func c19wReplay(ctx *vh.Ctx, raw json.RawMessage) (bool, error) {
 }
 
 func c19wRun(ctx *vh.Ctx) error {
-	n := ctx.N(350, 6000)
+	n := ctx.N(1000, 6000)
 	for i := 0; i < n && ctx.TimeLeft(); i++ {
 		if err := c19wOne(ctx, c19wGen(ctx.Rng)); err != nil {
 			return err
